@@ -149,6 +149,13 @@ CLAIMS["C08"] = (
     "Trusted: hooks H3-H5. Arrival orders are concrete instances (all 6 orders of 3 fragments in the thorough tier).",
     "DESIGN.md §4 C08")
 
+CLAIMS["C15"] = (
+    "Solver verdict, for all values of the numeric and boolean fields of 14 response types, that each generic accessor "
+    "returns the documented protocol-specific field, that as_json() carries exactly those values, that players map "
+    "one-to-one and that as_original() refers to the same value.",
+    "Trusted: hook H4. Outside: JSON text, Eco/Epic/Minetest.",
+    "DESIGN.md §4 C15")
+
 ALL = ["C%02d" % i for i in range(1, 21)]
 
 DEFAULT_NA = "check not built yet in this revision (work in progress; see DESIGN.md for the plan)"
